@@ -707,7 +707,7 @@ func genMixed(spec string) interface{} {
 			tm[k] = v.(*Inner)
 		}
 		return map[string]interface{}{"m": tm, "top": 1}
-	case "filter", "tfilter", "qfilter":
+	case "filter", "tfilter", "qfilter", "dfilter":
 		if fam == "tfilter" {
 			tm := map[string]*Inner{}
 			for k, v := range m {
@@ -737,6 +737,9 @@ var MixedFamilies = map[string]string{
 	"filter":  `x == 1`,
 	"qfilter": `any m as k, v { v == "abc" }`,
 	"tfilter": `X == 1`,
+	"deep":    `v.meta.x != "1"`,
+	"dfilter": `meta.x != "1"`,
+	"ikin":    `"web" in v`,
 }
 
 // MixedElem returns the element of class c (T, F or E) for family fam.
@@ -833,6 +836,35 @@ func MixedElem(fam string, c byte, j int) interface{} {
 				return map[string]interface{}{"p": []int{1}, "q": 1}
 			}
 			return 5
+		}
+	case "deep", "dfilter":
+		// records of one Go type whose shapes differ: the selector resolves, misses
+		// its last key under an existing map (not present), or misses an intermediate
+		// key (an error)
+		switch c {
+		case 'T':
+			if j%2 == 0 {
+				return map[string]interface{}{"meta": map[string]interface{}{"x": "2"}}
+			}
+			return map[string]interface{}{"meta": map[string]interface{}{"y": 1}}
+		case 'F':
+			return map[string]interface{}{"meta": map[string]interface{}{"x": "1"}}
+		default:
+			if j%2 == 0 {
+				return map[string]interface{}{}
+			}
+			return map[string]interface{}{"other": j}
+		}
+	case "ikin":
+		// maps keyed by interface{} whose keys mix strings with values no string
+		// can be compared with
+		switch c {
+		case 'T':
+			return map[interface{}]interface{}{"web": 1, nil: 2, [2]int{1, 2}: 3, 5 + j: 4, 2.5: 5}
+		case 'F':
+			return map[interface{}]interface{}{"db": 1, nil: 2, [2]int{1, 2}: 3, 7: j}
+		default:
+			return 5 + j
 		}
 	case "tslice":
 		switch c {
